@@ -17,6 +17,7 @@ Proof.
   unfold draw. destruct (0 <? x); [|discriminate]. cbn [negb].
   destruct (find_cdp e s o t) as [c0|]; [|discriminate].
   destruct (get_cp e t) as [cp|]; [|discriminate].
+  destruct (mstat s (cp_spot cp) && mstat s (cp_liqm cp)) eqn:Em; [|discriminate]. cbn [negb].
   destruct (Nat.eqb pd (d_usdx e)); [|discriminate]. cbn [negb].
   destruct (debt_limit_ok e s t cp x); [|discriminate]. cbn [negb].
   destruct (sync_interest e s cp c0) as [s1 c| |] eqn:Es; try discriminate.
